@@ -30,8 +30,8 @@ class Ctx:
         self.coverage: dict = {}
         self.assumptions: list[str] = []
         self.notes: list[str] = []
-        self.findings = [f for f in json.load(open(os.path.join(VERIF, "KNOWN_FINDINGS.json")))["findings"]
-                         if f["property"] == pid]
+        fp = os.path.join(VERIF, "known_findings", f"{pid}.json")
+        self.findings = json.load(open(fp))["findings"] if os.path.exists(fp) else []
 
     @property
     def quick(self) -> bool:
@@ -64,9 +64,13 @@ class Ctx:
         print(f"[{self.pid} {time.time() - self.t0:6.1f}s] {msg}", flush=True)
 
     # -- obligations ----------------------------------------------------------
-    def prove(self, dirs: list[str], props_v: str, allowed_axioms=(), trusted_base=()):
+    def prove(self, files: list[str], allowed_axioms=(), trusted_base=()):
+        """files: the .v files of this property in dependency order (relative to coq/), the
+        last one being the Props file (theorems closed by `exact` + Print Assumptions)."""
+        props_v = files[-1]
+        dirs = sorted({os.path.dirname(f) for f in files} | {"Base"})
         bad = coq.gate(dirs)
-        ob = coq.obligations(props_v, set(allowed_axioms))
+        ob = coq.obligations(files, set(allowed_axioms))
         if bad:
             ob["errors"].append("forbidden constructs: " + "; ".join(bad[:10]))
             ob["discharged"] = 0
